@@ -17,3 +17,21 @@ T('m15_twin_short_circuit', ['C15'],
   (GZ, _CT_FIX, "            if resp.content_type and not (resp.content_type.startswith('text/') or\n                    'javascript' in resp.content_type):\n"))
 T('m15_twin_is_not_none', ['C15'],
   (GZ, _CT_FIX, "            content_type = resp.content_type\n            if content_type is None:\n                content_type = ''\n            if not (content_type.startswith('text/') or\n                    'javascript' in content_type):\n"))
+
+# ---- R13.d application-level middlewares are wrapper sources (F14)
+B('m13_wrappers_from_routes_only', ['C13'], 'R13.d',
+  (A, '        all_mws = _get_all_middlewares(self.routes, self.middlewares)\n', '        all_mws = _get_all_middlewares(self.routes)\n'))
+B('m13_app_middlewares_inside_routes_loop', ['C13'], 'R13',
+  (A, "    for mw in app_middlewares:\n        if mw not in all_mw:\n            all_mw.append(mw)\n\n    for broute in reversed(bound_routes):\n",
+      "    for broute in reversed(bound_routes):\n        for mw in app_middlewares:\n            if mw not in all_mw:\n                all_mw.append(mw)\n"))
+B('m13_app_middlewares_not_deduplicated', ['C13'], 'R13.b',
+  (A, "    for mw in app_middlewares:\n        if mw not in all_mw:\n            all_mw.append(mw)\n", "    for mw in app_middlewares:\n        all_mw.append(mw)\n"))
+B('m13_app_middlewares_after_routes', ['C13'], 'R13.b',
+  (A, "    for mw in app_middlewares:\n        if mw not in all_mw:\n            all_mw.append(mw)\n\n", ""),
+  (A, "                all_mw.append(mw)\n\n    return all_mw\n",
+      "                all_mw.append(mw)\n\n    for mw in app_middlewares:\n        if mw not in all_mw:\n            all_mw.append(mw)\n\n    return all_mw\n"))
+T('m13_twin_keyword_argument', ['C13'],
+  (A, '        all_mws = _get_all_middlewares(self.routes, self.middlewares)\n', '        all_mws = _get_all_middlewares(self.routes, app_middlewares=self.middlewares)\n'))
+T('m13_twin_inline_reversed', ['C13'],
+  (A, '        all_mws = _get_all_middlewares(self.routes, self.middlewares)\n        for mw in reversed(all_mws):\n',
+      '        for mw in reversed(_get_all_middlewares(self.routes, self.middlewares)):\n'))
